@@ -29,9 +29,32 @@ func ruleResetEqualsNew(p *Prog, r *Report, rule string) {
 		}
 		T := "leveldb/journal." + sp.typ
 		exempt := map[string]string{"seq": "staleness counter: incremented so that readers/writers handed out earlier go stale", "buf": "scratch block buffer: contents are dead once the window indices are reset"}
-		class := func(fn *ssa.Function, v ssa.Value, recv bool) string {
+		var class func(fn *ssa.Function, v ssa.Value, recv bool) string
+		depth := 0
+		class = func(fn *ssa.Function, v ssa.Value, recv bool) string {
 			v = stripConv(v)
+			depth++
+			defer func() { depth-- }()
+			if depth > 6 {
+				return "deep"
+			}
 			switch x := v.(type) {
+			case *ssa.Phi:
+				// a value normalised on some paths (e.g. nil replaced by a default): the SET of
+				// alternatives must agree between constructor and Reset
+				var alts []string
+				seen := map[string]bool{}
+				for _, e := range x.Edges {
+					c := class(fn, e, recv)
+					if !seen[c] {
+						seen[c] = true
+						alts = append(alts, c)
+					}
+				}
+				sort.Strings(alts)
+				return "oneof" + fmt.Sprint(alts)
+			case *ssa.MakeInterface:
+				return "iface(" + types.TypeString(x.X.Type(), nil) + ":" + class(fn, x.X, recv) + ")"
 			case *ssa.Const:
 				if x.IsNil() || x.Value == nil {
 					return "zero"
